@@ -562,7 +562,7 @@ func (c *Compiler) listElemCode(typ *runtime.Type) (Code, error) {
 		}
 		ptr, ok := code.(*PtrCode)
 		if ok {
-			if ptr.value.Kind() == CodeKindMap {
+			if ptr.value.Kind() == CodeKindMap || isRecursiveMapCode(ptr.value) {
 				ptr.ptrNum++
 			}
 		}
@@ -621,6 +621,13 @@ func (c *Compiler) mapKeyCode(typ *runtime.Type) (Code, error) {
 	return nil, &errors.UnsupportedTypeError{Type: runtime.RType2Type(typ)}
 }
 
+// isRecursiveMapCode: the recursive occurrence of a map type (a map is a pointer itself: reaching it
+// through a pointer takes one more dereference, as for a MapCode)
+func isRecursiveMapCode(code Code) bool {
+	rec, ok := code.(*RecursiveCode)
+	return ok && rec.typ.Kind() == reflect.Map
+}
+
 func (c *Compiler) mapValueCode(typ *runtime.Type) (Code, error) {
 	switch typ.Kind() {
 	case reflect.Map:
@@ -632,7 +639,7 @@ func (c *Compiler) mapValueCode(typ *runtime.Type) (Code, error) {
 		}
 		ptr, ok := code.(*PtrCode)
 		if ok {
-			if ptr.value.Kind() == CodeKindMap {
+			if ptr.value.Kind() == CodeKindMap || isRecursiveMapCode(ptr.value) {
 				ptr.ptrNum++
 			}
 		}
